@@ -526,8 +526,9 @@ pub fn run(ctx: &Ctx, rep: &mut Report) {
                     if taken == o.ok() {
                         if taken {
                             rep.violation(&format!("taken-id-redeployed:{}", op), "a remote deploy message for a registered id was executed".into());
-                        } else if ctx.prop == "C11" {
-                            rep.violation("remote-deployment-refused", format!("{:?}", o.res));
+                        } else {
+                            // whether a conforming remote deploy message is executed belongs to C04
+                            rep.foreign("remote-deployment-refused");
                         }
                         alive = false;
                         continue;
